@@ -4,7 +4,9 @@ import (
 	"bytes"
 	"io"
 	"math/rand"
+	"os"
 	"os/exec"
+	"path/filepath"
 	"testing"
 
 	"github.com/ulikunitz/xz"
@@ -208,6 +210,30 @@ func TestLibToRef(t *testing.T) {
 		lr, err := DecodeLZMA(b2.Bytes())
 		if err != nil || !bytes.Equal(lr.Out, data) {
 			t.Fatalf("lzma case %d (len %d): %v", i, len(data), err)
+		}
+	}
+}
+
+func TestCorpus(t *testing.T) {
+	files, _ := filepath.Glob("/verif/corpus/*")
+	for _, f := range files {
+		b, _ := os.ReadFile(f)
+		switch filepath.Ext(f) {
+		case ".xz":
+			if _, err := DecodeXZ(b); err != nil {
+				t.Errorf("%s: %v", f, err)
+			}
+		case ".lzma":
+			if _, err := DecodeLZMA(b); err != nil {
+				t.Errorf("%s: %v", f, err)
+			}
+		}
+	}
+	bad, _ := filepath.Glob("/verif/corpus/bad/*.lzma")
+	for _, f := range bad {
+		b, _ := os.ReadFile(f)
+		if _, err := DecodeLZMA(b); err == nil {
+			t.Errorf("%s accepted", f)
 		}
 	}
 }
